@@ -90,14 +90,14 @@ def run(c):
     SENT = 77
     obig = np.full(m + 2 * G, SENT, dtype=dout)
     out = np.ndarray((m,), dtype=dout, buffer=obig, offset=G * dout.itemsize)  # keeps its address even when empty
-    f = cumsum.py_func if c['mode'] == 'twin' else cumsum
+    f = getattr(cumsum, 'py_func', cumsum) if c['mode'] == 'twin' else cumsum     # (a plain-Python cumsum is its own twin)
     full = np.concatenate([[off], off + np.cumsum(np.array(vals, dtype=dout), dtype=dout)]).astype(dout)
     exp_total = full[-1]
     sel = full[(0 if ini else 1):(len(full) if fin else len(full) - 1)] if n > 0 else full[:max(nout, 0)]
     try:
         tot = f(arr, out, initial=ini, final=fin, offset=off)
         raised = None
-    except ValueError as e:
+    except (ValueError, AssertionError) as e:      # how a wrong-length output is rejected is not part of the property
         raised = e
     except (IndexError, SystemError) as e:
         probs.append(dict(sig=sigbase + ':oob', msg=f'out-of-bounds access: {type(e).__name__}: {e}'))
